@@ -1,17 +1,62 @@
 package checks
 
 import (
+	"bytes"
+	"encoding/json"
 	"testing"
 
 	"verifsim/chainsim"
 	"verifsim/kernel"
+	"verifsim/netsim"
 )
 
+// C02 has two kinds of plan: direct import histories (chainsim.Plan) and
+// full-stack networks (netsim.FullPlan: whole nodes joined by the real p2p and
+// sub-protocol stack, with mining, partitions and heals).
 func TestC02(t *testing.T) {
+	imp := chainsim.ExecChain("C02")
+	meta := map[string]any{}
+	for k, v := range chainMeta {
+		meta[k] = v
+	}
+	comps := map[string]string{}
+	for k, v := range chainMeta["components"].(map[string]string) {
+		comps[k] = v
+	}
+	comps["full-stack cases: p2p.Server (RLPx), aqua.ProtocolManager (status handshake, block/tx broadcast, fetcher, downloader), core.TxPool, opt/miner"] = "real, 2-4 whole nodes per case joined by in-memory connections; the simulator owns links (partition/heal), the clock, who finds a block when (gated Seal) and client submissions"
+	meta["components"] = comps
 	kernel.Run(t, &kernel.Spec{
-		Prop: "C02", Engine: "chainsim",
-		Generate: chainsim.GenC02, Decode: chainsim.DecodePlan, Execute: chainsim.ExecChain("C02"),
-		Shrink: chainsim.ShrinkPlan, Hash: chainsim.HashPlan,
-		StallS: 60, Meta: chainMeta,
+		Prop: "C02", Engine: "chainsim+netsim",
+		Generate: func(rng *kernel.RNG, env *kernel.Env, k int) any {
+			if k%5 == 4 {
+				return netsim.GenFullPlan(rng, env, k)
+			}
+			return chainsim.GenC02(rng, env, k)
+		},
+		Decode: func(raw json.RawMessage) (any, error) {
+			if bytes.Contains(raw, []byte(`"miners"`)) {
+				return netsim.DecodeFullPlan(raw)
+			}
+			return chainsim.DecodePlan(raw)
+		},
+		Execute: func(t *testing.T, p any, col *kernel.Collector) []kernel.Violation {
+			if fp, ok := p.(*netsim.FullPlan); ok {
+				return netsim.ExecFull(t, fp, col)
+			}
+			return imp(t, p, col)
+		},
+		Shrink: func(p any) []any {
+			if fp, ok := p.(*netsim.FullPlan); ok {
+				return netsim.ShrinkFullPlan(fp)
+			}
+			return chainsim.ShrinkPlan(p)
+		},
+		Hash: func(p any) uint64 {
+			if fp, ok := p.(*netsim.FullPlan); ok {
+				return netsim.HashFullPlan(fp)
+			}
+			return chainsim.HashPlan(p)
+		},
+		StallS: 120, Meta: meta,
 	})
 }
